@@ -11,9 +11,9 @@ COMMON_TRUSTED = [
     "coq/Gen/Src*.v translated from the source text on every run by tools/rs2v.py (make_tune_ok, Heartbeat::fire, "
     "Channel0Handle::new, SealableOutputBuffer::{append, push_method, push_heartbeat, seal}) and tools/rs2sm.py (the content "
     "collector: ContentCollector::{collect_deliver, collect_return, collect_get, collect_header, collect_body} and "
-    "State<T>::{collect_header, collect_body}); the meaning given to the Rust subsets is stated in those files and trusted; "
+    "State<T>::{collect_header, collect_body}; the handshake: HandshakeState::process); the meaning given to the Rust subsets is stated in those files and trusted; "
     "the translations are proved equal to the hand-written models (C15_source_is_model, C17_fire_source_is_model, "
-    "C02_limit_source_is_model, C08_seal_source_is_model, C03_source_is_model)",
+    "C02_limit_source_is_model, C08_seal_source_is_model, C03_source_is_model, C16_process_source_is_model)",
     "no extraction is used: the model is evaluated by the kernel's VM",
 ]
 
@@ -296,6 +296,9 @@ PROPS["C16"] = {
             "one event; distinct = distinct case term.",
     "explanation": "C16_connected_only_after_exchange / C16_sent_prefix / C16_err_* / C16_no_hang_with_timeout / "
                    "C16_hang_means_silence / C16_heartbeat_as_announced, all for every server behaviour. "
+                   "C16_process_source_is_model: HandshakeState::process as translated from the source text on "
+                   "every run (Gen/SrcHandshake.v, tools/rs2sm.py) is the model's hprocess for every state and "
+                   "frame - state, methods pushed in order, seal, heartbeat start, error. "
                    "Both layers must equal the model; the oracle - a staged reading of what the server did, "
                    "written from the property text with the documented negotiation spelled out - must give "
                    "the same outcome and the same frames on the wire.",
